@@ -14,8 +14,9 @@ RULE = ("histories of 1-4 composition calls on a random parent (<= 9 nodes, some
         "fill of a child's blackbox), strip_blackboxes with ignore_pins None/str/list, and a rejection stream (clashing node / registry "
         "names, unknown keys, io mismatch, illegal connections); every step is one observation (state before, arguments, state after, "
         "outcome); non-trivial = an accepted call that attaches at least one net or fills/strips a blackbox; distinct = canonical case hash")
-EXPLANATION = ("add_subcircuit specification proved over the API model (structure, registry, consistent-valuation characterisation); model tied to the "
-               "class by correspondence per step; the property's clauses are decided on every recorded result by exhaustive evaluation")
+EXPLANATION = ("specifications of add_subcircuit, add_blackbox, fill_blackbox, strip_blackboxes proved over the API model (structure, registry, "
+               "consistent-valuation characterisation); model tied to the class by correspondence per step; the property's clauses are decided "
+               "on every recorded result by exhaustive evaluation")
 SHARD = 6
 MAX_FREE = 9          # exhaustive sweeps: histories whose result has more free nodes are not evaluated (counted in the evidence)
 HASHSEEDS = {"quick": [0, 1], "thorough": [0, 1, 2]}
@@ -159,7 +160,7 @@ def scen_reject(rng):
     p = gen_parent(rng)
     child = gen_child(rng, flop=rng.random() < 0.4, clean_io=True)
     kind = rng.choice(["node_clash", "bb_clash", "bad_key", "two_nets", "driven_target", "input_target", "dup_inst", "io_mismatch",
-                       "no_inst", "fill_clash", "gate_target", "same_name_twice"])
+                       "no_inst", "fill_clash", "gate_target", "same_name_twice", "pin_retyped", "output_is_pin"])
     ops = []
     cn = [n[0] for n in child["nodes"]]
     ins = [n[0] for n in child["nodes"] if n[1] == "input"]
@@ -194,6 +195,18 @@ def scen_reject(rng):
         ops.append({"op": "bb", "bb": bb_of(child), "inst": "b0", "conns": conn_spec(rng, child, bb=True)})
         ops.append({"op": "fill", "inst": "b0", "sc": other})
         ops.append({"op": "fill", "inst": "b0", "sc": child})
+    elif kind == "pin_retyped":
+        # the registry still lists b0, but one of its pin nodes was removed and its name reused for an ordinary node
+        ops.append({"op": "bb", "bb": bb_of(child), "inst": "b0", "conns": []})
+        ops.append({"op": "retype_pin", "inst": "b0", "pin": rng.choice(ins + outs)})
+        ops.append({"op": "fill", "inst": "b0", "sc": child})
+    elif kind == "output_is_pin":
+        child = gen_child(rng, flop=True, clean_io=True)
+        for n in child["nodes"]:
+            if n[0] == "ff0.q":
+                n[2] = True
+        ops.append({"op": "bb", "bb": bb_of(child), "inst": "b0", "conns": []})
+        ops.append({"op": "fill", "inst": "b0", "sc": child})
     elif kind == "no_inst":
         ops.append({"op": "fill", "inst": "b7", "sc": child})
     elif kind == "fill_clash":
@@ -204,7 +217,7 @@ def scen_reject(rng):
 
 
 def generate(rng, tier):
-    n = 90 if tier == "quick" else 1000
+    n = 80 if tier == "quick" else 700
     out = []
     for _ in range(n):
         r = rng.random()
@@ -278,6 +291,12 @@ def impl(case):
                 sc = lib.build_circuit(op["sc"])
                 st.update(inst=op["inst"], sc=op["sc"])
                 c.fill_blackbox(op["inst"], sc)
+            elif op["op"] == "retype_pin":       # set-up step, not an observation: remove the pin node and reuse its name
+                n = f"{op['inst']}.{op['pin']}"
+                if n in c.graph:
+                    c.graph.remove_node(n)
+                    c.graph.add_node(n, type="buf", output=False)
+                continue
             elif op["op"] == "strip":
                 ign = op["ign"]
                 st["ign"] = [] if not ign else [ign] if isinstance(ign, str) else list(ign)
@@ -371,11 +390,13 @@ def finding_signature(case, obs):
 
 
 CLAIMED = True
-LEVEL_TEXT = ("Theorems over the API model: for every parent, child, instance name and connection map on which add_subcircuit succeeds, the "
-              "parent's inputs/outputs are unchanged, the registry is the parent's plus the child's under prefixed names, and (child outputs "
-              "attached to undriven buffers) a valuation is consistent for the result iff it is consistent for the parent, its pull-back "
-              "along name_ is consistent for strip_io(child), and every attached pair of nets is equal. fill_blackbox / strip_blackboxes / "
-              "add_blackbox: see docs/C06.md for which clauses are proved and which are decided per recorded result by the Coq oracle.")
+LEVEL_TEXT = ("Theorems over the API model, for every accepted call: add_subcircuit (any connection map), add_blackbox, fill_blackbox and "
+              "strip_blackboxes (any ignore_pins) leave the parent's inputs/outputs as specified, edit the registry as specified (child "
+              "blackboxes under prefixed names, the filled one removed, none after strip), and a valuation is consistent for the result iff "
+              "it is consistent for the parent (every pre-existing node keeps its equation), its pull-back along name_ is consistent for "
+              "strip_io(child), and every attached pair of nets is equal (side conditions: child outputs drive undriven buffers; "
+              "instances well-formed as add_blackbox creates them). The model is tied to circuit.py / tx.py by per-step correspondence; "
+              "every clause is also decided on each recorded result by an exhaustive sweep whose completeness is proved.")
 LEVEL_NOTE = ("Trusted: Coq kernel + vm_compute, std++, the hand-written API model (tied to circuit.py by the per-step correspondence "
               "of this check and of C07), Gen_types translator shapes, harness canonicalisation. Cyclic results are judged structurally only; "
               "histories whose result has more than 9 free nodes are generated but not evaluated.")
